@@ -32,6 +32,7 @@ type Engine struct {
 	assumeDomain bool
 	overlay      map[string][]byte
 	contractFiles []string
+	missingFuncs []string
 }
 
 func NewEngine(repo, verif string) *Engine {
@@ -119,9 +120,17 @@ func (e *Engine) LoadContracts() error {
 	// every non-extern contract must name an existing function
 	for k, c := range e.cs.Funcs {
 		if e.funcs[k] == nil && !c.Extern {
-			return fmt.Errorf("%s:%d: contract for %s: no such function (contract out of date)", c.File, c.Line, k)
+			if !strings.HasSuffix(c.File, ".go") {
+				// proved contract for a dependency that is not loaded in this run: only usable as assumed
+				c.Extern = true
+				continue
+			}
+			// the function was removed or renamed: its obligations are reported as missing, the rest is still checked
+			e.missingFuncs = append(e.missingFuncs, shortKey(k))
+			delete(e.cs.Funcs, k)
 		}
 	}
+	sort.Strings(e.missingFuncs)
 	return nil
 }
 
@@ -498,7 +507,7 @@ func (g *FuncGen) queryPart(o *Obligation, part int, models bool, abstracted boo
 	b.WriteString("(set-option :produce-models true)\n")
 	b.WriteString("(set-logic ALL)\n")
 	b.WriteString(g.w.Prelude(body.String()))
-	b.WriteString("(define-fun wf_slice ((s Slice)) Bool (and (>= (s_arr s) 0) (>= (s_off s) 0) (>= (s_len s) 0) (<= (s_len s) (s_cap s)) (=> (= (s_arr s) 0) (and (= (s_off s) 0) (= (s_cap s) 0)))))\n")
+	b.WriteString("(define-fun wf_slice ((s Slice)) Bool (and (>= (s_arr s) 0) (>= (s_off s) 0) (>= (s_len s) 0) (<= (s_len s) (s_cap s)) (<= (s_cap s) 9223372036854775807) (=> (= (s_arr s) 0) (and (= (s_off s) 0) (= (s_cap s) 0)))))\n")
 	b.WriteString(body.String())
 	b.WriteString("(check-sat)\n")
 	if models && !o.WantSat {
